@@ -26,6 +26,7 @@ import (
 	"os"
 	"sort"
 	"strings"
+	"sync"
 	"time"
 
 	"github.com/ChainSafe/sygma-relayer/comm"
@@ -47,6 +48,7 @@ type Msg struct {
 	From   int    `json:"from"`
 	Params []int  `json:"params,omitempty"`
 	Bad    bool   `json:"bad,omitempty"` // start: payload is not a start message
+	At     int    `json:"at,omitempty"`  // timed cases: not delivered earlier than this many ms after the wait began
 }
 
 type Case struct {
@@ -68,6 +70,12 @@ type Case struct {
 	Start1 []int  `json:"start1,omitempty"` // first attempt, other role: params of the coordinator's start message
 	Winner *int   `json:"winner,omitempty"` // an earlier candidate announces itself; nil = nobody answers, this relayer coordinates
 	Evs    []Ev   `json:"evs,omitempty"`    // retried attempt, coordinator role: ready and fail messages
+	// timed: Coordinator.CoordinatorTimeout / TssTimeout in ms (0 = one hour) and how long the relayer is
+	// watched (ms after its wait began); Msgs carry arrival times.  Winner == nil: the first attempt's
+	// wait; otherwise the retried attempt's wait for the scripted winner (Cause = comm).
+	CTO     int `json:"cto_ms,omitempty"`
+	TTO     int `json:"tto_ms,omitempty"`
+	Horizon int `json:"horizon_ms,omitempty"`
 }
 
 type Ev struct {
@@ -81,7 +89,17 @@ type Out struct {
 	Params []int  `json:"params,omitempty"`
 }
 
+// TObs is what a timed wait did and how it ended: waiting | running (at the horizon) | finished |
+// coord-timeout | watch-timeout.
+type TObs struct {
+	Outs  []Out  `json:"outs"`
+	End   string `json:"end"`
+	Tries int    `json:"tries,omitempty"`
+}
+
 type Obs struct {
+	TAll       *TObs    `json:"t_all,omitempty"` // timed: fed every message
+	TOwn       *TObs    `json:"t_own,omitempty"` // timed: fed the coordinator's own messages only
 	Keys       []uint64 `json:"keys"`
 	Sorted     []int    `json:"sorted,omitempty"`
 	SortedPerm []int    `json:"sorted_perm,omitempty"`
@@ -170,6 +188,31 @@ func sameInts(a, b []int) bool {
 
 // ---- driving the real code -----------------------------------------------------------------------
 
+// guarded runs the code under test and turns its panic (the conc pools re-raise the panics of their
+// tasks in Wait, i.e. in the goroutine that called Execute) into a value the driver re-raises in the
+// goroutine that runs THIS case - whichever case the runner's foreground is busy with.
+type crashBox struct {
+	mu sync.Mutex
+	v  interface{}
+}
+
+func (b *crashBox) guard() {
+	if x := recover(); x != nil {
+		b.mu.Lock()
+		b.v = x
+		b.mu.Unlock()
+	}
+}
+
+func (b *crashBox) rethrow() {
+	b.mu.Lock()
+	v := b.v
+	b.mu.Unlock()
+	if v != nil {
+		panic(fmt.Sprintf("the code under test panicked: %v", v))
+	}
+}
+
 func newCoordinator(h *fk.ScriptHost, cm *fk.ScriptComm) *tss.Coordinator {
 	c := tss.NewCoordinator(h, cm, elector.NewCoordinatorElectorFactory(h, relayer.BullyConfig{}))
 	c.CoordinatorTimeout = time.Hour
@@ -228,8 +271,11 @@ func runSubset(c Case, t tbl, o *Obs) {
 	done := make(chan struct{})
 	res := make(chan interface{}, 8)
 	excluded := t.pick(c.Excluded)
+	var box crashBox
+	defer box.rethrow()
 	go func() {
 		defer close(done)
+		defer box.guard()
 		if c.Via == "hook" {
 			_ = co.VerifStart(ctx, []tss.TssProcess{proc}, self, res, excluded)
 		} else {
@@ -299,8 +345,11 @@ func runWait(c Case, t tbl, o *Obs) {
 	done := make(chan struct{})
 	res := make(chan interface{}, 8)
 	var ferr error
+	var box crashBox
+	defer box.rethrow()
 	go func() {
 		defer close(done)
+		defer box.guard()
 		ferr = co.Execute(ctx, []tss.TssProcess{proc}, res)
 	}()
 	d := &fk.C07Driver{Comm: cm, Proc: proc, Sid: c.Sid, Done: done}
@@ -443,8 +492,11 @@ func driveRetry(c Case, t tbl, o *Obs, bullyWait time.Duration) (raceLost bool) 
 	done := make(chan struct{})
 	res := make(chan interface{}, 8)
 	var ferr error
+	var box crashBox
+	defer box.rethrow()
 	go func() {
 		defer close(done)
+		defer box.guard()
 		ferr = co.Execute(ctx, []tss.TssProcess{proc}, res)
 	}()
 	d := &fk.C07Driver{Comm: cm, Proc: proc, Sid: c.Sid, Done: done}
@@ -606,6 +658,281 @@ func driveRetry(c Case, t tbl, o *Obs, bullyWait time.Duration) (raceLost bool) 
 	return false
 }
 
+
+// ---- waits with time --------------------------------------------------------------------------------
+
+const hourMs = 3600000
+
+func msOrHour(ms int) time.Duration {
+	if ms <= 0 {
+		ms = hourMs
+	}
+	return time.Duration(ms) * time.Millisecond
+}
+
+// timedCoordinator: whom the relayer of a timed case waits for.
+func timedCoordinator(c Case, t tbl) peer.ID {
+	if c.Winner != nil {
+		return t.ids[*c.Winner]
+	}
+	co, _ := elector.NewCoordinatorElector(c.Sid).Coordinator(context.Background(), t.pick(c.Holders))
+	return co
+}
+
+// driveTimed runs the real Coordinator.Execute once and feeds it msgs not earlier than their arrival
+// times (counted from the moment the wait - the start-message subscription of the attempt - exists),
+// then watches the relayer until the horizon.  late: the runner itself could not keep the schedule
+// (machine stalled): the caller repeats the run.
+func driveTimed(c Case, t tbl, msgs []Msg, bullyWait time.Duration) (o TObs, other string, late, raceLost bool) {
+	self := t.ids[c.Self]
+	holders := t.pick(c.Holders)
+	h := fk.NewScriptHost(self, t.ids)
+	cm := fk.NewScriptComm()
+	bully := fk.NewScriptComm()
+	inner, err := fk.C07Signing(c.Proc, repo, c.Sid, h, cm, holders, c.T)
+	if err != nil {
+		panic(err)
+	}
+	retryVariant := c.Winner != nil
+	proc := fk.NewScriptProcess(c.Sid, fk.C07Inner{ScriptInner: inner, Retry: retryVariant})
+	genuine, _ := elector.NewCoordinatorElector(c.Sid).Coordinator(context.Background(), holders)
+	expected := timedCoordinator(c, t)
+	factory := elector.NewCoordinatorElectorFactoryWithComm(h, bully, relayer.BullyConfig{
+		PingWaitTime: time.Second, PingBackOff: time.Second, PingInterval: time.Second,
+		ElectionWaitTime: 5 * time.Millisecond, BullyWaitTime: bullyWait,
+	})
+	co := tss.NewCoordinator(h, cm, factory)
+	co.InitiatePeriod = time.Hour
+	co.TssTimeout = msOrHour(c.TTO)
+	co.CoordinatorTimeout = msOrHour(c.CTO)
+	injected := &comm.CommunicationError{Peer: genuine, Err: errors.New("stream reset")}
+	if retryVariant {
+		if genuine == self {
+			panic("timed retry case: needs the non-coordinator role")
+		}
+		co.CoordinatorTimeout = time.Hour // the first attempt is scripted, not timed
+	}
+	proc.Behave = func(n int, ctx context.Context) error {
+		if retryVariant && n == 0 {
+			// ordered after the first attempt's read of the field and before handleError's reads
+			co.CoordinatorTimeout = msOrHour(c.CTO)
+			return injected
+		}
+		<-ctx.Done()
+		return nil
+	}
+	ctx, cancel := context.WithCancel(context.Background())
+	defer cancel()
+	done := make(chan struct{})
+	res := make(chan interface{}, 8)
+	var ferr error
+	var box crashBox
+	defer box.rethrow()
+	go func() {
+		defer close(done)
+		defer box.guard()
+		ferr = co.Execute(ctx, []tss.TssProcess{proc}, res)
+	}()
+	d := &fk.C07Driver{Comm: cm, Proc: proc, Sid: c.Sid, Done: done}
+	finish := func() {
+		cancel()
+		if !d.WaitDone() {
+			other = "Execute did not return"
+		}
+	}
+	nfirst, startOrd, failOrd := 0, 1, 1
+	if retryVariant {
+		w := t.ids[*c.Winner]
+		bully.OnSubscribe = func(s *fk.ScriptSub) {
+			if s.Type == comm.CoordinatorSelectMsg {
+				fk.ScriptPush(s, w, []byte{}, fk.C07Deadline(), done)
+			}
+		}
+		d.Deliver(comm.TssInitiateMsg, 1, genuine, []byte{})
+		d.Deliver(comm.TssStartMsg, 1, genuine, fk.C07StartPayload(t.pick(c.Start1)))
+		if !d.WaitRuns(1) {
+			finish()
+			return o, "first attempt did not reach Run", false, false
+		}
+		nfirst, startOrd, failOrd = 1, 2, 2
+	}
+	ready1 := cm.CountSent(comm.TssReadyMsg)
+	sub := cm.WaitAnySub(c.Sid, []fk.ScriptWant{{Type: comm.TssStartMsg, Ordinal: startOrd}, {Type: comm.TssReadyMsg, Ordinal: 1}}, done, fk.C07Deadline())
+	if sub == nil {
+		finish()
+		return o, "the wait did not begin", false, false
+	}
+	if sub.Type == comm.TssReadyMsg {
+		// the scripted winner's announcement lost the race against BullyWaitTime: this relayer coordinates
+		finish()
+		return o, "", false, true
+	}
+	began := time.Now()
+	const tolerance = 120 * time.Millisecond
+	for _, m := range msgs {
+		due := began.Add(time.Duration(m.At) * time.Millisecond)
+		if wait := time.Until(due); wait > 0 {
+			select {
+			case <-time.After(wait):
+			case <-done:
+			}
+		}
+		if d.Stuck {
+			break
+		}
+		from := t.ids[m.From]
+		consumed := false
+		switch m.Type {
+		case "initiate":
+			consumed = d.Deliver(comm.TssInitiateMsg, startOrd, from, []byte{})
+		case "start":
+			payload := []byte("{not a start message")
+			if !m.Bad {
+				payload = fk.C07StartPayload(t.pick(m.Params))
+			}
+			consumed = d.Deliver(comm.TssStartMsg, startOrd, from, payload)
+			if consumed && from == expected && !m.Bad {
+				d.WaitRuns(nfirst + 1)
+			}
+		case "fail":
+			consumed = d.Deliver(comm.TssFailMsg, failOrd, from, []byte{})
+		default:
+			panic("unknown message type " + m.Type)
+		}
+		// only the coordinator's own messages have to be punctual: the others must not matter
+		if consumed && from == expected && time.Since(due) > tolerance {
+			late = true
+		}
+	}
+	// watch until the horizon
+	endedBySelf := false
+	if wait := time.Until(began.Add(time.Duration(c.Horizon) * time.Millisecond)); wait > 0 {
+		select {
+		case <-done:
+			endedBySelf = true
+		case <-time.After(wait):
+		}
+	}
+	select {
+	case <-done:
+		endedBySelf = true
+	default:
+	}
+	_, active, _ := proc.RunState()
+	finish()
+	k := 0
+	for _, s := range cm.Sent() {
+		if s.Type == comm.TssReadyMsg {
+			if k >= ready1 {
+				p := unknownPeer
+				if len(s.To) == 1 {
+					p = t.index(s.To[0])
+				}
+				o.Outs = append(o.Outs, Out{Kind: "ready", Peer: p})
+			}
+			k++
+		}
+	}
+	for i, r := range proc.Runs() {
+		if i < nfirst {
+			continue
+		}
+		ps, ok := fk.C07DecodeParams(r.Params)
+		a := t.indices(ps)
+		if !ok || r.Coordinator {
+			a = []int{unknownPeer}
+		}
+		o.Outs = append(o.Outs, Out{Kind: "run", Params: a})
+	}
+	var syn *json.SyntaxError
+	var ce *tss.CoordinatorError
+	switch {
+	case !endedBySelf:
+		o.End = "waiting"
+		if active {
+			o.End = "running"
+		}
+		if ferr != nil {
+			other = "after the horizon: " + ferr.Error()
+		}
+	case ferr == nil:
+		o.End = "finished"
+		other = "Execute returned nil by itself"
+	case strings.Contains(ferr.Error(), "tss fail message received"):
+		o.Outs = append(o.Outs, Out{Kind: "abort"})
+		o.End = "finished"
+	case errors.As(ferr, &syn):
+		o.Outs = append(o.Outs, Out{Kind: "badstart"})
+		o.End = "finished"
+	case errors.As(ferr, &ce):
+		o.End = "coord-timeout"
+		if ce.Peer != expected {
+			other = "CoordinatorError blames " + ce.Peer.String()
+		}
+	case strings.Contains(ferr.Error(), "tss process timed out"):
+		o.End = "watch-timeout"
+	default:
+		o.End = "finished"
+		other = ferr.Error()
+	}
+	return o, other, late, false
+}
+
+// runTimed drives the real relayer twice, concurrently: fed all messages, and fed only those of the
+// coordinator it waits for.
+func runTimed(c Case, t tbl, o *Obs) {
+	expected := timedCoordinator(c, t)
+	var own []Msg
+	for _, m := range c.Msgs {
+		if t.ids[m.From] == expected {
+			own = append(own, m)
+		}
+	}
+	one := func(msgs []Msg) (TObs, string) {
+		wait := 300 * time.Millisecond
+		var r TObs
+		var other string
+		for try := 1; try <= 4; try++ {
+			var late, lost bool
+			r, other, late, lost = driveTimed(c, t, msgs, wait)
+			r.Tries = try
+			if lost {
+				wait = 1500 * time.Millisecond
+				other = "the scripted winner of the bully election lost the race"
+				continue
+			}
+			if !late {
+				return r, other
+			}
+			other = "the runner could not keep the schedule"
+		}
+		return r, other
+	}
+	var wg sync.WaitGroup
+	var a, b TObs
+	var oa, ob string
+	var crash interface{}
+	guard := func() {
+		if r := recover(); r != nil {
+			crash = r
+		}
+		wg.Done()
+	}
+	wg.Add(2)
+	go func() { defer guard(); a, oa = one(c.Msgs) }()
+	go func() { defer guard(); b, ob = one(own) }()
+	wg.Wait()
+	if crash != nil {
+		panic(crash)
+	}
+	o.TAll, o.TOwn = &a, &b
+	if oa != "" {
+		o.OtherError = "all: " + oa
+	} else if ob != "" {
+		o.OtherError = "own: " + ob
+	}
+}
+
 func runRetry(c Case, t tbl, o *Obs) {
 	wait := 30 * time.Millisecond
 	if c.Winner != nil {
@@ -621,7 +948,7 @@ func runRetry(c Case, t tbl, o *Obs) {
 	}
 }
 
-func run(c Case) Obs {
+func runNow(c Case) Obs {
 	t := table(c)
 	o := Obs{Keys: keys(t, c.Sid), Coord: -1, CoordPerm: -1}
 	switch c.Kind {
@@ -635,6 +962,8 @@ func run(c Case) Obs {
 		runWait(c, t, &o)
 	case "retry":
 		runRetry(c, t, &o)
+	case "timed":
+		runTimed(c, t, &o)
 	default:
 		panic("unknown kind " + c.Kind)
 	}
@@ -1129,6 +1458,131 @@ func genRetry(r *vgen.Rng, tier string) []Case {
 	return out
 }
 
+
+// genTimed: a relayer waits for its coordinator while other peers keep sending initiate / start / fail
+// messages at intervals much shorter than the timeouts.  The coordinator is silent, or sends an
+// initiate message (which does re-arm the ticker) and then nothing, or starts / aborts the attempt.
+func genTimed(r *vgen.Rng, tier string) []Case {
+	var out []Case
+	reps := 1
+	if tier == "thorough" {
+		reps = 6
+	}
+	for k := 0; k < reps; k++ {
+		for v := 0; v < 15; v++ {
+			nh := r.Range(3, 6)
+			m := nh + r.Intn(2)
+			peers, sid := genTable(r, m), genSid(r)
+			holders := shuffled(r, seq(nh))
+			order := sortedByKey(peers, sid, holders)
+			t := r.Range(1, nh-2)
+			si := r.Range(1, nh-1)
+			c := Case{Kind: "timed", Peers: peers, Sid: sid, Holders: holders, T: t, Self: order[si],
+				Proc: vgen.Pick(r, []string{"ecdsa", "frost"})}
+			co := order[0]
+			if v == 11 || v == 12 {
+				w := order[r.Intn(si)]
+				c.Winner, c.Cause, co = &w, "comm", w
+				c.Start1 = shuffled(r, holders)[:t+1]
+			}
+			var forgers []int
+			for _, p := range shuffled(r, seq(m)) {
+				if p != c.Self && p != co {
+					forgers = append(forgers, p)
+				}
+			}
+			if (v == 11 || v == 12) && order[0] != co {
+				forgers = append([]int{order[0]}, forgers...) // the first attempt's coordinator keeps talking
+			}
+			if len(forgers) > 2 {
+				forgers = forgers[:2]
+			}
+			params := func() []int { return shuffled(r, seq(m))[:r.Range(1, m)] }
+			var msgs []Msg
+			traffic := func(from, until, lo, hi int, types []string) {
+				for at := from; at < until; at += r.Range(lo, hi) {
+					mm := Msg{Type: vgen.Pick(r, types), From: vgen.Pick(r, forgers), At: at}
+					if mm.Type == "start" {
+						mm.Params = params()
+						mm.Bad = r.Chance(1, 4)
+					}
+					msgs = append(msgs, mm)
+				}
+			}
+			mixed := []string{"initiate", "start", "fail", "initiate", "start"}
+			own := func(ty string, at int) Msg {
+				mm := Msg{Type: ty, From: co, At: at}
+				if ty == "start" {
+					mm.Params = params()
+				}
+				return mm
+			}
+			first := r.Range(20, 50)
+			switch v {
+			case 0:
+				c.CTO, c.Horizon = 250, 1500
+				traffic(first, c.Horizon-70, 40, 70, []string{"initiate"})
+			case 1:
+				c.CTO, c.Horizon = 250, 1500
+				traffic(first, c.Horizon-70, 40, 70, []string{"start"})
+			case 2:
+				c.CTO, c.Horizon = 250, 1500
+				traffic(first, c.Horizon-70, 40, 70, []string{"fail"})
+			case 3:
+				c.CTO, c.Horizon = 200, 1400
+				traffic(first, c.Horizon-60, 30, 60, mixed)
+			case 4:
+				c.CTO, c.Horizon = 300, 1800
+				traffic(first, c.Horizon-90, 50, 90, mixed)
+			case 5: // its own initiate message re-arms; then silence
+				c.CTO, c.Horizon = 600, 3000
+				traffic(first, c.Horizon-90, 50, 90, mixed)
+				msgs = append(msgs, own("initiate", 60))
+			case 6: // the coordinator starts the attempt in the middle of the traffic
+				c.CTO, c.Horizon = 400, 700
+				traffic(first, 150, 30, 50, mixed)
+				msgs = append(msgs, own("initiate", 50), own("start", 150))
+				traffic(170, c.Horizon-60, 40, 60, []string{"fail", "fail", "fail", "initiate"})
+			case 7: // the watcher's ticker, relayer waiting
+				c.TTO, c.Horizon = 350, 1800
+				traffic(first, c.Horizon-70, 40, 70, []string{"fail", "initiate", "fail", "start"})
+			case 14:
+				c.TTO, c.Horizon = 300, 1500
+				traffic(first, c.Horizon-70, 40, 70, []string{"fail"})
+			case 8: // the watcher's ticker, process running
+				c.TTO, c.Horizon = 450, 1800
+				msgs = append(msgs, own("start", 80))
+				traffic(first, 80, 20, 30, mixed)
+				traffic(100, c.Horizon-70, 40, 70, []string{"fail"})
+			case 9: // the coordinator aborts
+				c.CTO, c.Horizon = 500, 1200
+				traffic(first, c.Horizon-70, 40, 70, mixed)
+				msgs = append(msgs, own("initiate", 40), own("fail", 150))
+			case 10: // the coordinator's undecodable start message
+				c.CTO, c.Horizon = 500, 1200
+				traffic(first, c.Horizon-70, 40, 70, mixed)
+				bad := own("start", 120)
+				bad.Params, bad.Bad = nil, true
+				msgs = append(msgs, bad)
+			case 11: // the retried attempt: the re-elected coordinator is silent
+				c.CTO, c.Horizon = 250, 1500
+				traffic(first, c.Horizon-70, 40, 70, mixed)
+			case 12: // ... after one initiate message of its own
+				c.CTO, c.Horizon = 600, 3000
+				traffic(first, c.Horizon-90, 50, 90, mixed)
+				msgs = append(msgs, own("initiate", 60))
+			case 13: // dense traffic
+				c.CTO, c.Horizon = 200, 1200
+				traffic(10, c.Horizon-30, 12, 25, mixed)
+			}
+			sort.SliceStable(msgs, func(i, j int) bool { return msgs[i].At < msgs[j].At })
+			c.Msgs = msgs
+			out = append(out, c)
+		}
+	}
+	return out
+}
+
 func gen(r *vgen.Rng, tier string) []Case {
 	var out []Case
 	out = append(out, genElect(r, tier)...)
@@ -1136,7 +1590,86 @@ func gen(r *vgen.Rng, tier string) []Case {
 	out = append(out, genSubset(r, tier)...)
 	out = append(out, genWait(r, tier)...)
 	out = append(out, genRetry(r, tier)...)
+	out = append(out, genTimed(r, tier)...)
+	prefetch(out, 4)
 	return out
+}
+
+// ---- prefetch ----------------------------------------------------------------------------------------
+// The cases that spend their time waiting (timeouts, election windows, quiet windows) are run by a few
+// workers in the background as soon as they are generated; run() then only picks up the result.  Every
+// case is independent of every other; corpus and replay cases are run in the foreground as before.
+
+type future struct {
+	done  chan struct{}
+	obs   Obs
+	crash interface{}
+}
+
+var (
+	preMu sync.Mutex
+	pre   = map[string]*future{}
+)
+
+func caseKey(c Case) string {
+	b, _ := json.Marshal(c)
+	return string(b)
+}
+
+func prefetch(cases []Case, workers int) {
+	var todo []Case
+	preMu.Lock()
+	for _, c := range cases {
+		if c.Kind != "timed" && c.Kind != "retry" && c.Kind != "wait" {
+			continue
+		}
+		k := caseKey(c)
+		if _, ok := pre[k]; ok {
+			continue
+		}
+		pre[k] = &future{done: make(chan struct{})}
+		todo = append(todo, c)
+	}
+	preMu.Unlock()
+	ch := make(chan Case)
+	for w := 0; w < workers; w++ {
+		go func() {
+			for c := range ch {
+				preMu.Lock()
+				f := pre[caseKey(c)]
+				preMu.Unlock()
+				func() {
+					defer func() {
+						if r := recover(); r != nil {
+							f.crash = r
+						}
+						close(f.done)
+					}()
+					f.obs = runNow(c)
+				}()
+			}
+		}()
+	}
+	go func() {
+		for _, c := range todo {
+			ch <- c
+		}
+		close(ch)
+	}()
+}
+
+func run(c Case) Obs {
+	preMu.Lock()
+	f := pre[caseKey(c)]
+	preMu.Unlock()
+	if f == nil {
+		return runNow(c)
+	}
+	<-f.done
+	if f.crash != nil {
+		panic(f.crash)
+	}
+	return f.obs
 }
 
 // ---- Coq terms ---------------------------------------------------------------------------------------
@@ -1189,8 +1722,35 @@ func coqOut(x Out) string {
 	}
 }
 
+func coqTObs(x *TObs) string {
+	if x == nil {
+		return "([], TFinished)"
+	}
+	end := map[string]string{"waiting": "TWaiting", "running": "TRunning", "finished": "TFinished",
+		"coord-timeout": "TCoordTimeout", "watch-timeout": "TWatchTimeout"}[x.End]
+	if end == "" {
+		end = "TFinished"
+	}
+	return vgen.Pair(vgen.ListOf(x.Outs, coqOut), end)
+}
+
+func msN(ms int) string {
+	if ms <= 0 {
+		ms = hourMs
+	}
+	return vgen.N(uint64(ms))
+}
+
 func coq(c Case, o Obs) string {
 	switch c.Kind {
+	case "timed":
+		c2 := "None"
+		if c.Winner != nil {
+			c2 = vgen.Some(P(*c.Winner))
+		}
+		return "Timed " + KL(o.Keys) + " " + PL(c.Holders) + " " + P(c.Self) + " " + c2 + " " + msN(c.CTO) + " " + msN(c.TTO) + " " +
+			vgen.N(uint64(c.Horizon)) + " " + vgen.ListOf(c.Msgs, func(m Msg) string { return vgen.Pair(vgen.N(uint64(m.At)), coqMsg(m)) }) + " " +
+			coqTObs(o.TAll) + " " + coqTObs(o.TOwn) + " " + vgen.Bool(o.OtherError != "")
 	case "retry":
 		if c.Winner != nil {
 			return "RetryWait " + KL(o.Keys) + " " + PL(c.Holders) + " " + P(c.Self) + " " + P(*c.Winner) + " " +
@@ -1243,6 +1803,12 @@ func coq(c Case, o Obs) string {
 
 func kind(c Case) string {
 	switch c.Kind {
+	case "timed":
+		role := "first"
+		if c.Winner != nil {
+			role = "retry"
+		}
+		return "timed:" + role
 	case "retry":
 		role := "coord"
 		if c.Winner != nil {
@@ -1291,6 +1857,12 @@ func main() {
 				return o.Announced != nil
 			case "wait":
 				return len(c.Msgs) >= 2
+			case "timed":
+				for _, m := range c.Msgs {
+					if m.At > 0 && o.OtherError == "" && o.TAll != nil {
+						return true
+					}
+				}
 			case "retry":
 				for _, m := range c.Msgs {
 					if m.Type == "fail" {
@@ -1311,7 +1883,10 @@ func main() {
 			"wait: real Coordinator.Execute in a non-coordinator role fed genuine and 0..12 forged initiate/start/fail messages in random interleavings; " +
 			"retry: real Coordinator.Execute whose first attempt fails retryably ({silent coordinator, CommunicationError, tss.Error with culprits, CoordinatorError} x {coordinator, other} role), " +
 			"real bully election won by this relayer or by a scripted earlier candidate, retried attempt fed ready / initiate / start messages and forged fail messages from non-coordinators (before and while the process runs); " +
-			"distinct = distinct input JSON; non-trivial = >= 2 listed peers / non-empty ready list / a subset was announced / >= 2 messages / a fail message during the retried attempt",
+			"timed: real Coordinator.Execute waiting for its coordinator (first attempt; retried attempt after a scripted bully winner) with CoordinatorTimeout 200..600 ms or TssTimeout 350..450 ms " +
+			"while one or two other peers send forged initiate-only / start-only / fail-only / mixed messages every 12..90 ms until the horizon (1.2..3 s): silent coordinator, coordinator with one initiate message of its own, coordinator that starts / aborts / sends an undecodable start; " +
+			"every such case drives the relayer twice (all messages / the coordinator's own messages only) and compares actions and how the wait ended (which ticker, or still waiting / running at the horizon); " +
+			"distinct = distinct input JSON; non-trivial = >= 2 listed peers / non-empty ready list / a subset was announced / >= 2 messages / a fail message during the retried attempt / a timed case whose runs kept the schedule",
 		ShardSize: 200,
 	})
 }
